@@ -105,6 +105,8 @@ def run_binary(cfg, rng=None):
     if 'infinite' in cfg:
         for p in m.phases:
             m.setInfinitePrecipitateDiffusivity(cfg['infinite'], phase=p)
+    if cfg.get('psdrecord'):
+        m.setPSDrecording(True)
     tr = Trace()
     tr.meta = dict(cfg)
     tr.meta.pop('therm', None)
